@@ -31,6 +31,8 @@ D2S = {
     "comment": "@comment{e}",
     "preamble": "@preamble{r}",
     "two": "@book{k2, u = 2}\n@misc{k3}",
+    # blanks between the opening brace and the key (the resumed block's head is not glued to its brace)
+    "spaced": "@book{ k2 , u = 2}\n@string{ s2 = {w}}",
 }
 
 
